@@ -261,17 +261,21 @@ def explain_trace(ctx, trace, label, minimal):
     opened = sorted(ctx.open_devs)
     if not opened:
         return False, [], best
-    ok, res, rej2 = validate(ctx, trace, opened, label + "-open")
+    hint = getattr(ctx, "c11_hint", None)
     used = None
+    if hint is not None and hint != opened:
+        # the subset that explained an earlier trace of this run
+        ok, _, _ = validate(ctx, trace, hint, label + "-hint")
+        if ok:
+            return True, hint, None
+    ok, res, rej2 = validate(ctx, trace, opened, label + "-open")
     if ok:
         used = opened
     else:
         if rej2 and best and rej2.get("matched", 0) > best.get("matched", 0):
             best = rej2
         # the code may have only some of the open deviations (repairs under way)
-        for k in (len(opened) - 1, 1):
-            if k < 1 or k >= len(opened):
-                continue
+        for k in range(len(opened) - 1, 0, -1):
             for sub in itertools.combinations(opened, k):
                 ok, _, _ = validate(ctx, trace, list(sub), label + "-sub")
                 if ok:
@@ -281,6 +285,7 @@ def explain_trace(ctx, trace, label, minimal):
                 break
     if used is None:
         return False, [], best
+    ctx.c11_hint = used
     if minimal and len(used) > 1:
         # which of them does this trace really need?
         need = []
@@ -395,6 +400,8 @@ def run(ctx):
     ctx.assume("a MAC shorter than the receiver's minimum may be rejected as BADTRUNC or FORMERR (RFC 8945 5.2.2.1 distinguishes by the RFC minimum, the library always says BADTRUNC)")
     ctx.assume("restored octets = the message up to its last counted record; the library leaves the stale TSIG octets behind it (Message::remove_last_additional)")
     ctx.assume("error / other-data fields of the 2nd and later answers of a sequence are not covered by the MAC (RFC 8945 5.3.1: timers only); changing them is not tampering with signed octets")
+    ctx.assume("a TSIG whose other-data is neither empty nor 6 octets cannot be interpreted (RFC 8945 4.2): FORMERR; a repair that instead signs the raw other-data (BADSIG) would need the table in MC_Tsig!ExpectAfter widened")
+    ctx.assume("result of the client on an unsigned error answer compared by class (any error); time fields of unsigned error answers not compared")
     ctx.assume("message contents: one question, 0-1 answer and 0-1 additional A records, uncompressed names; times below 2^31")
 
 
